@@ -652,4 +652,12 @@ def oldFill (g : OldGb) (gs : OldGroups) (v : Item) : Except String OldGroups :=
   | .error e => .error e
   | .ok k => .ok (groupsAddG k v gs)
 
+/-- `_GroupBy.fill` over a flow, stopping at the first exception -/
+def oldFillAll (g : OldGb) : OldGroups → List Item → Except String OldGroups
+  | gs, [] => .ok gs
+  | gs, v :: rest =>
+    match oldFill g gs v with
+    | .error e => .error e
+    | .ok gs' => oldFillAll g gs' rest
+
 end Lena.C15
